@@ -213,6 +213,57 @@ func hasOwnContinue(body *ast.BlockStmt, label string) bool {
 	return found
 }
 
+// injectPost rewrites every `continue` of this loop (not inside a nested loop) into `post; continue`
+func (c *m3) injectPost(body *ast.BlockStmt, post ast.Stmt, label string) bool {
+	ok := true
+	var doList func(l []ast.Stmt) []ast.Stmt
+	var doStmt func(s ast.Stmt)
+	doList = func(l []ast.Stmt) []ast.Stmt {
+		var out []ast.Stmt
+		for _, s := range l {
+			if br, isBr := s.(*ast.BranchStmt); isBr && br.Tok == token.CONTINUE && (br.Label == nil || br.Label.Name == label) {
+				out = append(out, post, &ast.BranchStmt{TokPos: br.TokPos, Tok: token.CONTINUE})
+				continue
+			}
+			doStmt(s)
+			out = append(out, s)
+		}
+		return out
+	}
+	doStmt = func(s ast.Stmt) {
+		switch s := s.(type) {
+		case *ast.BlockStmt:
+			s.List = doList(s.List)
+		case *ast.IfStmt:
+			s.Body.List = doList(s.Body.List)
+			if s.Else != nil {
+				doStmt(s.Else)
+			}
+		case *ast.ForStmt:
+			if hasOwnContinue(s.Body, "\x00") || (label != "" && hasLabelled(s.Body, label)) {
+				ok = ok && !hasLabelled(s.Body, label)
+			}
+		case *ast.RangeStmt:
+			ok = ok && !(label != "" && hasLabelled(s.Body, label))
+		case *ast.LabeledStmt:
+			doStmt(s.Stmt)
+		}
+	}
+	body.List = doList(body.List)
+	return ok
+}
+
+func hasLabelled(body *ast.BlockStmt, label string) bool {
+	found := false
+	ast.Inspect(body, func(n ast.Node) bool {
+		if br, ok := n.(*ast.BranchStmt); ok && br.Label != nil && br.Label.Name == label {
+			found = true
+		}
+		return true
+	})
+	return found
+}
+
 // desugarFor: `for {}` gets the condition true; a three-clause loop that is not the counted form
 // `for i := a; i < b; i++` becomes `init; for cond { body; post }` (rejected when the body continues)
 func (c *m3) desugarFor(s *ast.ForStmt, label string) []ast.Stmt {
@@ -226,13 +277,16 @@ func (c *m3) desugarFor(s *ast.ForStmt, label string) []ast.Stmt {
 		return []ast.Stmt{s}
 	}
 	if s.Post != nil && hasOwnContinue(s.Body, label) {
-		c.fail(s, "`continue` in a general three-clause for loop")
+		// `continue` runs the post statement first
+		if !c.injectPost(s.Body, s.Post, label) {
+			c.fail(s, "`continue` from a nested loop in a general three-clause for loop")
+		}
 	}
 	var out []ast.Stmt
 	if s.Init != nil {
 		out = append(out, s.Init)
 	}
-	if s.Post != nil {
+	if s.Post != nil && !c.terminates(s.Body.List) {
 		s.Body.List = append(s.Body.List, s.Post)
 	}
 	if s.Cond == nil {
@@ -278,31 +332,70 @@ func (c *m3) isCounted(s *ast.ForStmt) bool {
 			return false
 		}
 	}
-	if c.mentions(cond.Y, append(append([]types.Object{}, st...), io)) {
+	if c.mentionsExceptLen(cond.Y, append(append([]types.Object{}, st...), io), s.Body) {
 		return false
 	}
-	// the bounds must be pure
-	if !c.isPure(init.Rhs[0]) || !c.isPure(cond.Y) {
+	// the bounds must be without effect; they may panic (they are evaluated once, before the loop: the Go loop
+	// evaluates its condition at least once, and the bound is loop-invariant)
+	if !c.isPure(init.Rhs[0]) || !c.isPureP(cond.Y, true) {
 		return false
 	}
 	return true
 }
 
+// mentionsExceptLen: e mentions one of the objects other than as len(v) of a slice v whose elements only
+// (never the slice itself) are assigned in the body: such a length is loop-invariant
+func (c *m3) mentionsExceptLen(e ast.Expr, objs []types.Object, body *ast.BlockStmt) bool {
+	found := false
+	var walk func(n ast.Node) bool
+	walk = func(n ast.Node) bool {
+		switch n := n.(type) {
+		case *ast.CallExpr:
+			if fid, ok := n.Fun.(*ast.Ident); ok && fid.Name == "len" && len(n.Args) == 1 {
+				if _, isB := c.obj(fid).(*types.Builtin); isB {
+					if id, ok := n.Args[0].(*ast.Ident); ok {
+						o := c.obj(id)
+						if _, isSl := o.Type().Underlying().(*types.Slice); isSl && c.onlyElementWrites(body, o) {
+							return false
+						}
+					}
+				}
+			}
+		case *ast.Ident:
+			o := c.obj(n)
+			for _, x := range objs {
+				if o == x {
+					found = true
+				}
+			}
+		}
+		return true
+	}
+	ast.Inspect(e, walk)
+	return found
+}
+
 // isPure: syntactically cannot panic or have an effect (conservative)
-func (c *m3) isPure(e ast.Expr) bool {
+func (c *m3) isPure(e ast.Expr) bool { return c.isPureP(e, false) }
+
+func (c *m3) isPureP(e ast.Expr, allowPanic bool) bool {
 	pure := true
 	ast.Inspect(e, func(n ast.Node) bool {
 		switch n := n.(type) {
-		case *ast.IndexExpr, *ast.SliceExpr, *ast.StarExpr, *ast.TypeAssertExpr:
+		case *ast.TypeAssertExpr:
 			pure = false
+		case *ast.IndexExpr, *ast.SliceExpr, *ast.StarExpr:
+			if !allowPanic {
+				pure = false
+			}
 		case *ast.BinaryExpr:
 			if n.Op == token.QUO || n.Op == token.REM {
-				if _, ok := c.constInt(n.Y); !ok {
+				if _, ok := c.constInt(n.Y); !ok && !allowPanic {
 					pure = false
 				}
 			}
 		case *ast.SelectorExpr:
-			if sel := c.p.info.Selections[n]; sel != nil && sel.Kind() == types.FieldVal {
+			if sel := c.p.info.Selections[n]; sel != nil && sel.Kind() == types.FieldVal && !allowPanic {
 				if tv, ok := c.p.info.Types[n.X]; ok {
 					if _, isPtr := tv.Type.Underlying().(*types.Pointer); isPtr {
 						if id, ok := n.X.(*ast.Ident); !ok || c.obj(id) != c.recvOf() {
@@ -318,6 +411,18 @@ func (c *m3) isPure(e ast.Expr) bool {
 			if id, ok := n.Fun.(*ast.Ident); ok {
 				if b, isB := c.obj(id).(*types.Builtin); isB && b.Name() == "len" {
 					return true
+				}
+				if s := c.g.funcs[c.spec.pkg+":."+id.Name]; s != nil && !s.fallible && !s.mutRecv && !anyTrue(s.mutPar) {
+					return true
+				}
+			}
+			if sel, ok := n.Fun.(*ast.SelectorExpr); ok {
+				if tv, ok := c.p.info.Types[sel.X]; ok && tv.Type != nil && !tv.IsType() {
+					if s := c.g.funcs[methodKey(c.spec.pkg, tv.Type, sel.Sel.Name)]; s != nil && !s.fallible && !s.mutRecv && !anyTrue(s.mutPar) {
+						if id, isId := sel.X.(*ast.Ident); isId && c.obj(id) == c.recvOf() {
+							return true
+						}
+					}
 				}
 			}
 			pure = false
@@ -482,7 +587,7 @@ func (c *m3) numberSites() {
 	ast.Inspect(c.bodyNode, func(n ast.Node) bool {
 		switch n := n.(type) {
 		case *ast.FuncLit:
-			return true
+			return false
 		case *ast.ReturnStmt:
 			if c.spec.from != "" {
 				c.fail(n, "return inside a translated fragment")
@@ -836,13 +941,110 @@ func (c *m3) aliasCheck() {
 		}
 		return true
 	})
+	// &v for a variable (or a path rooted in one): the pointer is a COPY in the translation.  That is sound when
+	// the address is only passed to a call (a translated callee that writes through it returns the new value,
+	// which is stored back), returned, or used as a method receiver; when it is kept (assigned, put in a literal)
+	// neither v may be written afterwards nor the pointer written through in this function.
+	{
+		var stk []ast.Node
+		ast.Inspect(c.bodyNode, func(n ast.Node) bool {
+			if n == nil {
+				stk = stk[:len(stk)-1]
+				return true
+			}
+			stk = append(stk, n)
+			u, ok := n.(*ast.UnaryExpr)
+			if !ok || u.Op != token.AND {
+				return true
+			}
+			if _, isLit := stripParens(u.X).(*ast.CompositeLit); isLit {
+				return true
+			}
+			v := c.rootVar(u.X)
+			if v == nil || !c.isLocal(v) {
+				return true
+			}
+			if tv, has := c.p.info.Types[u.X]; has && abstractName3(tv.Type) != "" {
+				return true // an abstract object: the pointer is the object
+			}
+			// the context
+			k := len(stk) - 2
+			for k >= 0 {
+				if _, isP := stk[k].(*ast.ParenExpr); !isP {
+					break
+				}
+				k--
+			}
+			if k >= 0 {
+				switch p := stk[k].(type) {
+				case *ast.CallExpr:
+					for _, a := range p.Args {
+						if stripParens(a) == ast.Expr(u) {
+							return true
+						}
+					}
+				case *ast.ReturnStmt:
+					return true
+				case *ast.SelectorExpr:
+					return true
+				}
+			}
+			// kept: v must not change afterwards, the pointer must not be written through
+			inLoop := false
+			for _, a := range stk {
+				switch a.(type) {
+				case *ast.ForStmt, *ast.RangeStmt:
+					inLoop = true
+				}
+			}
+			bad := ""
+			ast.Inspect(c.bodyNode, func(m ast.Node) bool {
+				switch m := m.(type) {
+				case *ast.AssignStmt:
+					for _, l := range m.Lhs {
+						if c.rootVar(l) == v && (m.Pos() > u.Pos() || inLoop) {
+							if id, isId := l.(*ast.Ident); !isId || c.p.info.Defs[id] == nil {
+								bad = "is assigned"
+							}
+						}
+					}
+				case *ast.IncDecStmt:
+					if c.rootVar(m.X) == v && (m.Pos() > u.Pos() || inLoop) {
+						bad = "is assigned"
+					}
+				}
+				return true
+			})
+			if k >= 0 {
+				if as, isAs := stk[k].(*ast.AssignStmt); isAs {
+					for i, r := range as.Rhs {
+						if stripParens(r) == ast.Expr(u) && i < len(as.Lhs) {
+							if lid, isId := as.Lhs[i].(*ast.Ident); isId && c.obj(lid) != nil {
+								po := c.obj(lid)
+								if _, w := ptrWritten[po]; w {
+									bad = "is written through the pointer `" + po.Name() + "`"
+								}
+							}
+						}
+					}
+				}
+			}
+			if bad != "" {
+				c.fail(u, "address of `%s` kept while the variable %s (a pointer is a copy in the translation: sharing is not modelled)", c.srcText(u.X.Pos(), u.X.End()), bad)
+			}
+			return true
+		})
+	}
 	for o, w := range ptrWritten {
 		if cp, ok := ptrCopied[o]; ok {
 			c.fail(w, "write through the pointer `%s`, which has a second name (assignment at %s): sharing is not modelled", o.Name(), c.p.fset.Position(cp.Pos()))
 		}
 	}
 	for o, ws := range writes {
-		if c.isParam(o) >= 0 {
+		if i := c.isParam(o); i >= 0 {
+			if i < len(c.sig.mutPar) && c.sig.mutPar[i] {
+				continue // the new slice is returned to the caller
+			}
 			c.fail(ws[0].id, "assignment to an element of the parameter `%s` (an effect on the caller's memory)", o.Name())
 		}
 		if resliced[o] {
@@ -1060,6 +1262,9 @@ func (c *m3) assigned3(stmts []ast.Stmt, from token.Pos) []types.Object {
 					if _, isB := c.obj(id).(*types.Builtin); isB && (id.Name == "copy" || id.Name == "delete") && len(n.Args) > 0 {
 						add(n.Args[0])
 					}
+				}
+				if si := c.sortCall(n); si != nil && si.kind != "IsSorted" {
+					add(si.target)
 				}
 				if sel, ok := n.Fun.(*ast.SelectorExpr); ok {
 					if sel.Sel.Name == "PutUint32" && len(n.Args) == 2 {
@@ -1394,7 +1599,7 @@ func (c *m3) simple(s ast.Stmt, ind string) {
 			return
 		}
 		c.cmt(ind, s)
-		if c.writeIntrinsic(call) {
+		if c.writeIntrinsic(call) || c.sortStmt(call) {
 			c.flush(ind)
 			return
 		}
@@ -1424,7 +1629,7 @@ func (c *m3) writeIntrinsic(call *ast.CallExpr) bool {
 				mt := c.tyOf(call.Args[0])
 				m := c.ex(call.Args[0])
 				k := c.ex(call.Args[1])
-				c.storePath(call.Args[0], fmt.Sprintf("(Go3.map_del %s %s %s)", c.eqbOf(*mt.key, call), m, k))
+				c.storePath(call.Args[0], fmt.Sprintf("(Go3.mdel %s %s %s)", c.eqbOf(*mt.key, call), m, k))
 				return true
 			}
 		}
@@ -1469,7 +1674,7 @@ func (c *m3) writeIntrinsic(call *ast.CallExpr) bool {
 	case "put32":
 		t = c.bind(fmt.Sprintf("Go.put_le32 %s %s %s", cur, off, src))
 	default:
-		c.fail(call, "binary.BigEndian.PutUint32 as a statement")
+		t = c.bind(fmt.Sprintf("Go3.put_be32 %s %s %s", cur, off, src))
 	}
 	bt := c.tyOf(base)
 	if bt.k == mOpt {
@@ -1510,7 +1715,7 @@ func (c *m3) storePath(lhs ast.Expr, term string) {
 		if xt.k == mMap {
 			m := c.ex(l.X)
 			k := c.ex(l.Index)
-			c.storePath(l.X, fmt.Sprintf("(Go3.map_set %s %s %s %s)", c.eqbOf(*xt.key, l), m, k, term))
+			c.storePath(l.X, c.bind(fmt.Sprintf("Go3.mset %s %s %s %s", c.eqbOf(*xt.key, l), m, k, term)))
 			return
 		}
 		cur := c.listBase(l.X)
@@ -1580,6 +1785,38 @@ func (c *m3) assign(s *ast.AssignStmt) {
 		return c.convTo(r, defType(l))
 	}
 	if len(s.Lhs) == 1 && len(s.Rhs) == 1 {
+		if fl, ok := s.Rhs[0].(*ast.FuncLit); ok && s.Tok == token.DEFINE {
+			// f := func(params) T { return e }: inlined at its calls
+			id, isId := s.Lhs[0].(*ast.Ident)
+			if !isId || len(fl.Body.List) != 1 {
+				c.fail(fl, "function literal (only `f := func(..) T { return e }`, inlined at its calls)")
+			}
+			ret, isRet := fl.Body.List[0].(*ast.ReturnStmt)
+			if !isRet || len(ret.Results) != 1 {
+				c.fail(fl, "function literal (only `f := func(..) T { return e }`, inlined at its calls)")
+			}
+			o := c.obj(id)
+			uses := 0
+			ast.Inspect(c.fn.Body, func(n ast.Node) bool {
+				if u, ok := n.(*ast.Ident); ok && c.p.info.Uses[u] == o {
+					uses++
+				}
+				if ce, ok := n.(*ast.CallExpr); ok {
+					if f, ok := ce.Fun.(*ast.Ident); ok && c.p.info.Uses[f] == o {
+						uses--
+					}
+				}
+				return true
+			})
+			if uses != 0 {
+				c.fail(fl, "function literal that is used other than by calling it")
+			}
+			if c.closures == nil {
+				c.closures = map[types.Object]*ast.FuncLit{}
+			}
+			c.closures[o] = fl
+			return
+		}
 		switch s.Tok {
 		case token.DEFINE, token.ASSIGN:
 			c.storePath(s.Lhs[0], rhsFor(s.Lhs[0], s.Rhs[0]))
@@ -1638,7 +1875,7 @@ func (c *m3) assign(s *ast.AssignStmt) {
 			m := c.ex(r.X)
 			k := c.ex(r.Index)
 			t := c.fresh()
-			c.pend = append(c.pend, fmt.Sprintf("let %s := Go3.map_get %s %s %s in", t, c.eqbOf(*xt.key, r), m, k))
+			c.pend = append(c.pend, fmt.Sprintf("let %s := Go3.mget %s %s %s in", t, c.eqbOf(*xt.key, r), m, k))
 			c.storePath(s.Lhs[0], fmt.Sprintf("(match %s with Some v_ => v_ | None => %s end)", t, c.zeroT(*xt.elem, r)))
 			c.storePath(s.Lhs[1], fmt.Sprintf("(match %s with Some _ => true | None => false end)", t))
 			return
@@ -1767,6 +2004,56 @@ func (c *m3) onlyElementWrites(body *ast.BlockStmt, o types.Object) bool {
 	return ok
 }
 
+// onlyElementWritesPath: every write in the body that is rooted in the root variable of path is an
+// assignment to an element of exactly that path (and no call changes the root)
+func (c *m3) onlyElementWritesPath(body *ast.BlockStmt, path ast.Expr) bool {
+	root := c.rootVar(path)
+	ptext := c.srcText(path.Pos(), path.End())
+	if root == nil {
+		return false
+	}
+	ok := true
+	ast.Inspect(body, func(n ast.Node) bool {
+		switch n := n.(type) {
+		case *ast.AssignStmt:
+			for _, l := range n.Lhs {
+				if c.rootVar(l) != root {
+					continue
+				}
+				ix, isIx := l.(*ast.IndexExpr)
+				if !isIx || c.srcText(ix.X.Pos(), ix.X.End()) != ptext {
+					ok = false
+				}
+			}
+		case *ast.IncDecStmt:
+			if c.rootVar(n.X) == root {
+				ok = false
+			}
+		}
+		return true
+	})
+	for _, o := range c.assigned3(body.List, body.Pos()) {
+		_ = o
+	}
+	// calls that change the root: assigned3 reports the root for them as well as for the element writes; accept
+	// only if no call in the body has the root as (the root of) its receiver or a pointer argument
+	ast.Inspect(body, func(n ast.Node) bool {
+		ce, isCall := n.(*ast.CallExpr)
+		if !isCall {
+			return true
+		}
+		if sel, isSel := ce.Fun.(*ast.SelectorExpr); isSel && c.rootVar(sel.X) == root {
+			if tv, has := c.p.info.Types[sel.X]; has && tv.Type != nil && !tv.IsType() {
+				if cm := c.g.mut[methodKey(c.spec.pkg, tv.Type, sel.Sel.Name)]; cm != nil && cm.recv {
+					ok = false
+				}
+			}
+		}
+		return true
+	})
+	return ok
+}
+
 type shape3 struct {
 	loopShape
 	pre func(ind string) // emitted at the start of the body
@@ -1788,6 +2075,25 @@ func (c *m3) loopShape0(s ast.Stmt, st []types.Object) (loopShape, func(string))
 			// for i, x := range b { .. b[i] = .. }: the slice header is evaluated once, the elements are read from
 			// the (shared) array at each iteration: exact as long as the body only writes elements of b
 			id, isId := s.X.(*ast.Ident)
+			if !isId && xt.k == mList && xt.alen == 0 && !xt.str && c.onlyElementWritesPath(s.Body, s.X) {
+				// range over x.f while the body writes x.f[i]: as above, with the path re-read at each iteration
+				kn := "i_"
+				if kid, ok := s.Key.(*ast.Ident); ok && kid.Name != "_" {
+					kn = c.vn(c.obj(kid))
+				}
+				var pre func(string)
+				if vid, ok := s.Value.(*ast.Ident); ok && vid.Name != "_" {
+					vn := c.vn(c.obj(vid))
+					pre = func(ind string) {
+						cur := c.ex(s.X)
+						c.flush(ind)
+						c.effect = true
+						c.emitf(ind, "do %s <- Go.idx %s %s ;;", vn, cur, kn)
+					}
+				}
+				x0 := c.ex(s.X)
+				return loopShape{list: fmt.Sprintf("(Go.zseq 0%%Z (List.length %s))", x0), elem: kn}, pre
+			}
 			if !isId || xt.k != mList || xt.alen > 0 || xt.str || !c.onlyElementWrites(s.Body, c.obj(id)) {
 				c.fail(s, "loop body assigns the value being ranged over")
 			}
@@ -1824,7 +2130,7 @@ func (c *m3) loopShape0(s ast.Stmt, st []types.Object) (loopShape, func(string))
 			x := c.ex(s.X)
 			c.needVar("map_order", "forall K V : Type, list (K * V) -> list (K * V)", s)
 			c.note(s, "range over a map: the order is the Section variable map_order (any permutation)")
-			return loopShape{list: fmt.Sprintf("(map_order _ _ %s)", x), elem: fmt.Sprintf("'(%s, %s)", k, v)}, nil
+			return loopShape{list: fmt.Sprintf("(map_order _ _ (Go3.mentries %s))", x), elem: fmt.Sprintf("'(%s, %s)", k, v)}, nil
 		}
 		if xt.k != mList && !(xt.k == mOpt && xt.elem.k == mList) {
 			c.fail(s, "range over `%s`, which is not a slice, array, string or map", c.srcText(s.X.Pos(), s.X.End()))
@@ -1852,7 +2158,7 @@ func (c *m3) loopShape0(s ast.Stmt, st []types.Object) (loopShape, func(string))
 		it := c.mt(io.Type(), iv)
 		cond := s.Cond.(*ast.BinaryExpr)
 		a := c.pureEx(init.Rhs[0], "loop start")
-		b := c.pureEx(cond.Y, "loop bound")
+		b := c.ex(cond.Y) // may bind (a nil dereference panics before the first iteration, as in Go)
 		nm := c.vn(io)
 		if v, isC := c.constInt(init.Rhs[0]); isC && v == 0 {
 			if it.k == mZ {
@@ -1870,7 +2176,13 @@ func (c *m3) loopShape0(s ast.Stmt, st []types.Object) (loopShape, func(string))
 }
 
 func (c *m3) loop(s ast.Stmt, body *ast.BlockStmt, rest []ast.Stmt, ind string, tail tailFn, label string) bool {
-	st := c.assigned3(body.List, s.Pos())
+	from := s.Pos()
+	if fs, ok := s.(*ast.ForStmt); ok && fs.Init == nil {
+		// a condition-controlled loop (possibly the desugaring of a three-clause loop, whose init statement now
+		// precedes it): everything declared before the body is state
+		from = body.Pos()
+	}
+	st := c.assigned3(body.List, from)
 	c.cmt(ind, s)
 	sh := c.loopShape(s, st)
 	c.flush(ind)
@@ -1962,6 +2274,12 @@ func (c *m3) loop(s ast.Stmt, body *ast.BlockStmt, rest []ast.Stmt, ind string, 
 	c.effect = true
 	t := c.fresh()
 	rty := c.retCoqType()
+	hasRet := c.hasCtl(body.List, true, false, false)
+	if n := len(c.loops); hasRet || n == 0 || c.loops[n-1].tier == 2 {
+		hasRet = true // the usual arm is well typed (and dead when the loop only breaks)
+	} else {
+		rty = "Empty_set" // a loop that only breaks, inside a loop that cannot return
+	}
 	c.emitf(ind, "do %s <-", t)
 	if sh.while {
 		head(fmt.Sprintf("Go.whileC (R := %s)", rty))
@@ -1971,7 +2289,11 @@ func (c *m3) loop(s ast.Stmt, body *ast.BlockStmt, rest []ast.Stmt, ind string, 
 	c.sb.WriteString(text)
 	foot(";;")
 	c.emitf(ind, "match %s with", t)
-	c.emitf(ind, "| Go.Ret r_ => %s", c.retText("r_"))
+	if hasRet {
+		c.emitf(ind, "| Go.Ret r_ => %s", c.retText("r_"))
+	} else {
+		c.emitf(ind, "| Go.Ret r_ => match r_ with end")
+	}
 	if len(st) == 0 {
 		c.emitf(ind, "| Go.Next _ | Go.Brk _ =>")
 	} else {
